@@ -382,6 +382,11 @@ def call(ip, name, args, kw):
             return sp.Rational(sp.floor(xr * 10 ** d + sp.Rational(1, 2)), 10 ** d)
         a = args[0]
         return vmap(rnd, to_obj_array(a)) if isinstance(a, (np.ndarray, list, tuple)) else rnd(a)
+    if name in ("logical_and", "logical_or", "logical_not", "logical_xor"):
+        py = {"logical_and": ast.BitAnd, "logical_or": ast.BitOr, "logical_xor": ast.BitXor}
+        if name == "logical_not":
+            return ip.unaryop(ast.Invert, args[0]) if hasattr(ip, "unaryop") else ip.binop(ast.BitXor, args[0], True)
+        return ip.binop(py[name], args[0], args[1])
     if name == "sort":
         a = [S(x) for x in to_obj_array(args[0]).ravel()]
         if to_obj_array(args[0]).ndim != 1 or not all(x.is_number and x.is_real for x in a):
